@@ -131,7 +131,13 @@ reg.add(Proc(D + 'Declaration.__contains__', [('self', OBJ), ('interface', OBJ)]
 
 subf = z3.Function('sub_prefix', Obj, SeqO, SeqO, Int, SeqO)        # kept interfaces among the first k of A (heap token, A, B, k)
 keeps = z3.Function('sub_keeps', Obj, Obj, SeqO, B)                 # i neither is nor extends an interface of B
-normal = z3.Function('normalizeargs', SeqO, SeqO)
+
+
+def normal_(c, seq):
+    """what Declaration(*bases) makes of its arguments: the leaves of the argument tree (bases,) in order -- the specification
+    function `flat` of _normalizeargs (verified below), evaluated in the heap at entry"""
+    return flat(c.h0('_bases'), box_seq(seq))
+
 HT = z3.Const('heap_token', Obj)
 
 
@@ -147,11 +153,11 @@ reg.axiom('subf-step', z3.ForAll([_A, _Bq, k_], z3.Implies(z3.And(0 <= k_, k_ < 
 
 reg.add(Proc(D + 'Declaration', [], varargs='bases', result=OBJ, trusted=True, modifies=['$alloc', '_bases', '_implied', '$dict'],
              ensures=lambda c: [z3.Not(c.h0('$alloc')[c.res]), c.res != NONE, kind(c.res) == K_DECL,
-                                c.h('_bases') == z3.Store(c.h0('_bases'), c.res, normal(c.a.bases)),
+                                c.h('_bases') == z3.Store(c.h0('_bases'), c.res, normal_(c, c.a.bases)),
                                 z3.ForAll([z3.Const('o', Obj)], z3.Implies(c.h0('$alloc')[z3.Const('o', Obj)], z3.And(
                                     c.h('$dict')[z3.Const('o', Obj)] == c.h0('$dict')[z3.Const('o', Obj)],
                                     c.h('_implied')[z3.Const('o', Obj)] == c.h0('_implied')[z3.Const('o', Obj)])))],
-             note='Declaration(*bases): a fresh declaration whose bases are the normalised arguments (constructor: Specification.__init__ + __setBases, C02)'))
+             note='Declaration(*bases): a fresh declaration whose bases are the normalised arguments (Declaration.__init__ verified below: _normalizeargs + Specification.__init__; __setBases, C02)'))
 
 
 def _sub_K0(c):
@@ -182,7 +188,7 @@ reg.add(Proc(
     modifies=['$alloc', '_bases', '_implied', '$dict'],
     ensures=lambda c: [
         ('keeps-in-order-exactly-what-neither-is-nor-extends-an-interface-of-B',
-         c.h('_bases')[c.res] == normal(subf(HT, ifs(c.h0('_bases'), c.a.self), ifs(c.h0('_bases'), c.a.other),
+         c.h('_bases')[c.res] == normal_(c, subf(HT, ifs(c.h0('_bases'), c.a.self), ifs(c.h0('_bases'), c.a.other),
                                              L(ifs(c.h0('_bases'), c.a.self))))),
         ('fresh-result', z3.And(z3.Not(c.h0('$alloc')[c.res]), kind(c.res) == K_DECL)),
         ('operands-unchanged', z3.And(c.h('_bases')[c.a.self] == c.h0('_bases')[c.a.self],
@@ -263,15 +269,125 @@ reg.add(Proc(
                         ('implied-mappings-exist', z3.ForAll([z3.Const('im_x', Obj)], c.h('$alloc')[c.h('_implied')[z3.Const('im_x', Obj)]]))],
     modifies=['$alloc', '_bases', '_implied', '$dict', '$list'],
     ensures=lambda c: [
-        ('placement-literal-outside-the-recorded-region', z3.Implies(outside_region(c), c.h('_bases')[c.res] == normal(Concat(
+        ('placement-literal-outside-the-recorded-region', z3.Implies(outside_region(c), c.h('_bases')[c.res] == normal_(c, Concat(
             frontL(HT, ifs(c.h0('_bases'), c.a.self), ifs(c.h0('_bases'), c.a.other), L(ifs(c.h0('_bases'), c.a.other))),
             Concat(ifs(c.h0('_bases'), c.a.self),
                    backL(HT, ifs(c.h0('_bases'), c.a.self), ifs(c.h0('_bases'), c.a.other), L(ifs(c.h0('_bases'), c.a.other)))))))),
-        ('placement-literal', c.h('_bases')[c.res] == normal(Concat(
+        ('placement-literal', c.h('_bases')[c.res] == normal_(c, Concat(
             frontL(HT, ifs(c.h0('_bases'), c.a.self), ifs(c.h0('_bases'), c.a.other), L(ifs(c.h0('_bases'), c.a.other))),
             Concat(ifs(c.h0('_bases'), c.a.self),
                    backL(HT, ifs(c.h0('_bases'), c.a.self), ifs(c.h0('_bases'), c.a.other), L(ifs(c.h0('_bases'), c.a.other))))))),
         ('operands-unchanged', z3.And(c.h('_bases')[c.a.self] == c.h0('_bases')[c.a.self],
                                       c.h('_bases')[c.a.other] == c.h0('_bases')[c.a.other]))],
     loops={'L0': Loop(lambda c: _add_L0(c) + [('assume-region', z3.BoolVal(True))])},
+))
+
+
+# ------------------------------------------------------------------ _normalizeargs: the argument trees of the declaration calls
+# leafy(x)       x is an interface or a class specification (InterfaceClass / Implements in the MRO of its class): kept as it is
+# it(Bs, x)      what `for v in x` yields for the other arguments of the modelled shapes: the elements of a tuple, the
+#                interfaces of a declaration (its __iter__ is interfaces(), contract above)
+# flat(Bs, x)    the leaves of the argument tree in order:  [x] for a leaf, else the concatenation of flat(v) for v in it(x)
+leafy = z3.Function('is_interface_or_class_specification', Obj, B)
+mro_of = z3.Function('mro_of_class', Obj, SeqO)
+IC_CLS, IMPL_CLS = classconst('InterfaceClass'), classconst('Implements')
+flat = z3.Function('flattened_arguments', SS, Obj, SeqO)
+flatk = z3.Function('flattened_arguments_of_first_elements', SS, Obj, Int, SeqO)
+argrank = z3.Function('argument_tree_rank', Obj, Int)
+_x2 = z3.Const('na_x', Obj)
+_k2 = z3.Int('na_k')
+
+
+def it(Bs_, x):
+    return z3.If(is_seq(x), unbox_seq(x), ifs(Bs_, x))
+
+
+reg.axiom('leafy-def', z3.ForAll([_x2], leafy(_x2) == z3.Or(Contains(mro_of(typeof(_x2)), IC_CLS), Contains(mro_of(typeof(_x2)), IMPL_CLS)),
+                                 patterns=[leafy(_x2)]))
+reg.axiom('flat-leaf', z3.ForAll([Bs, _x2], z3.Implies(leafy(_x2), flat(Bs, _x2) == Unit(_x2)), patterns=[flat(Bs, _x2)]))
+reg.axiom('flat-inner', z3.ForAll([Bs, _x2], z3.Implies(z3.Not(leafy(_x2)), flat(Bs, _x2) == flatk(Bs, _x2, L(it(Bs, _x2)))),
+                                  patterns=[flat(Bs, _x2)]))
+reg.axiom('flatk-0', z3.ForAll([Bs, _x2], flatk(Bs, _x2, 0) == Empty(SeqO), patterns=[flatk(Bs, _x2, 0)]))
+reg.axiom('flatk-step', z3.ForAll([Bs, _x2, _k2], z3.Implies(z3.And(0 <= _k2, _k2 < L(it(Bs, _x2))),
+          flatk(Bs, _x2, _k2 + 1) == Concat(flatk(Bs, _x2, _k2), flat(Bs, it(Bs, _x2)[_k2]))), patterns=[flatk(Bs, _x2, _k2 + 1)]))
+reg.assumptions.append('_normalizeargs: the arguments are interfaces, class specifications, tuples and declarations, arbitrarily nested and finite '
+                       '(ghost rank); iterating a declaration yields its interfaces (contract of interfaces())')
+
+
+def _na_iter(ex, st, term):
+    return it(st.heap.get('_bases'), term)
+
+
+def _na_out0(c):
+    return z3.If(c.a.output == NONE, Empty(SeqO), c.h0('$list')[c.a.output])
+
+
+def _na_L0(c):
+    out = c.l.output
+    o = z3.Const('na_o', Obj)
+    return [('output-is-the-old-content-plus-the-leaves-of-the-first-k-elements', SeqEq(
+        c.h('$list')[out], Concat(_na_out0(c), flatk(c.h0('_bases'), c.a.sequence, c.i)))),
+        ('output-is-the-given-list-or-a-fresh-one', z3.If(c.a.output == NONE, z3.Not(c.h0('$alloc')[out]), out == c.a.output)),
+        ('other-lists-untouched', ForAllP([o], z3.Implies(z3.And(c.h0('$alloc')[o], o != c.a.output), c.h('$list')[o] == c.h0('$list')[o]),
+                                          patterns=[c.h('$list')[o]])),
+        ('output-is-a-live-list', z3.And(c.h('$alloc')[out], is_list(out), out != NONE)),
+        ('allocation-only-grows', ForAllP([o], z3.Implies(c.h0('$alloc')[o], c.h('$alloc')[o]), patterns=[c.h('$alloc')[o]])),
+        ('declarations-untouched', c.h('_bases') == c.h0('_bases'))]
+
+
+def _finite_trees(c):
+    x = z3.Const('ft_x', Obj)
+    k = z3.Int('ft_k')
+    Bs_ = c.h('_bases')
+    return ForAllP([x, k], z3.Implies(z3.And(z3.Not(leafy(x)), 0 <= k, k < L(it(Bs_, x))), argrank(it(Bs_, x)[k]) < argrank(x)),
+                   patterns=[it(Bs_, x)[k]])
+
+
+_na = Proc(
+    D + '_normalizeargs', [('sequence', OBJ), ('output', LISTO)], source='declarations.py:_normalizeargs', result=LISTO,
+    defaults={'output': V(LISTO, NONE)}, calls={'_normalizeargs': D + '_normalizeargs'},
+    globals={'InterfaceClass': V(OBJ, IC_CLS), 'Implements': V(OBJ, IMPL_CLS)},
+    dynattr={'__class__': lambda ex, node, st, recv: [(st, vobj(typeof(recv.t)))],
+             '__mro__': lambda ex, node, st, recv: [(st, V(SEQO, mro_of(recv.t)))]},
+    locals={'output': LISTO}, modifies=['$list', '$alloc'],
+    requires=lambda c: [('output-is-a-list-of-its-own', z3.Or(c.a.output == NONE, z3.And(c.h('$alloc')[c.a.output], is_list(c.a.output)))),
+                        ('finite-argument-trees', _finite_trees(c))],
+    ensures=lambda c: [('appends-the-leaves-of-the-argument-tree-in-order', SeqEq(
+        c.h('$list')[c.res], Concat(_na_out0(c), flat(c.h0('_bases'), c.a.sequence)))),
+        ('returns-the-given-list-or-a-fresh-one', z3.If(c.a.output == NONE, z3.Not(c.h0('$alloc')[c.res]), c.res == c.a.output)),
+        ('other-lists-untouched', ForAllP([z3.Const('na_o2', Obj)], z3.Implies(
+            z3.And(c.h0('$alloc')[z3.Const('na_o2', Obj)], z3.Const('na_o2', Obj) != c.a.output),
+            c.h('$list')[z3.Const('na_o2', Obj)] == c.h0('$list')[z3.Const('na_o2', Obj)]), patterns=[c.h('$list')[z3.Const('na_o2', Obj)]])),
+        ('allocation-only-grows', ForAllP([z3.Const('na_o3', Obj)], z3.Implies(c.h0('$alloc')[z3.Const('na_o3', Obj)], c.h('$alloc')[z3.Const('na_o3', Obj)]),
+                                          patterns=[c.h('$alloc')[z3.Const('na_o3', Obj)]])),
+        ('the-result-is-a-live-list', z3.And(c.h('$alloc')[c.res], is_list(c.res), c.res != NONE)),
+        ('declarations-untouched', c.h('_bases') == c.h0('_bases'))],
+    loops={'L0': Loop(_na_L0)},
+)
+_na.iter_obj = _na_iter
+reg.add(_na)
+
+
+reg.axiom('a-tuple-is-no-interface', z3.ForAll([_x2], z3.Implies(is_seq(_x2), z3.Not(leafy(_x2))), patterns=[is_seq(_x2), leafy(_x2)]))
+
+
+def _spec_init(ex, node, st):
+    """Specification.__init__(self, bases): records tuple(bases) as the bases of the (new) specification (C02: __setBases,
+    changed) -- assumed here"""
+    out = []
+    for s, vs in ex.ev_list(node.args, st):
+        sq, _ = ex.seqterm(s, vs[1], node)
+        ex.write_field(s, vs[0].t, '_bases', V(SEQO, sq))
+        out.append((s, VNONE))
+    return out
+
+
+reg.add(Proc(
+    D + 'Declaration.__init__', [('self', OBJ)], varargs='bases', source='declarations.py:Declaration.__init__',
+    calls={'Specification.__init__': _spec_init, '_normalizeargs': D + '_normalizeargs'}, modifies=['_bases', '$list', '$alloc'],
+    requires=lambda c: [('finite-argument-trees', _finite_trees(c))],
+    ensures=lambda c: [('the-bases-are-the-leaves-of-the-argument-tree-in-order', SeqEq(c.h('_bases')[c.a.self], normal_(c, c.a.bases))),
+                       ('other-declarations-untouched', ForAllP([z3.Const('di_o', Obj)], z3.Implies(
+                           z3.Const('di_o', Obj) != c.a.self, c.h('_bases')[z3.Const('di_o', Obj)] == c.h0('_bases')[z3.Const('di_o', Obj)]),
+                           patterns=[c.h('_bases')[z3.Const('di_o', Obj)]]))],
 ))
